@@ -22,6 +22,7 @@ func RenameMethodApp(deps []core_domain.CodeDataStruct) *RemoveMethodApp {
 
 func (j *RemoveMethodApp) Refactoring(conf string) {
 	parsedChange = support.ParseRelates(conf)
+	appliedEdits = make(map[string]map[int][]lineEdit)
 	startParse(parsedDeps, parsedChange)
 }
 
@@ -66,6 +67,16 @@ func methodCallToMethodModel(call core_domain.CodeCall) core_domain.CodeFunction
 	}
 }
 
+// an identifier replacement already made on a line: the (original) column it started at and
+// by how many characters it changed the length of the line
+type lineEdit struct {
+	column int
+	delta  int
+}
+
+// edits applied so far in this refactoring, per file and line index
+var appliedEdits = make(map[string]map[int][]lineEdit)
+
 func updateSelfRefs(node core_domain.CodeDataStruct, method core_domain.CodeFunction, info *support.PackageClassInfo) {
 	path := node.FilePath
 	input, err := ioutil.ReadFile(path)
@@ -77,8 +88,33 @@ func updateSelfRefs(node core_domain.CodeDataStruct, method core_domain.CodeFunc
 
 	for i, line := range lines {
 		if i == method.Position.StartLine-1 {
-			newLine := line[:method.Position.StartLinePosition] + info.Method + line[method.Position.StopLinePosition:]
+			// positions are character columns of the line as it was analysed: work on runes, and
+			// shift by the replacements already made to the left of this one
+			start := method.Position.StartLinePosition
+			stop := method.Position.StopLinePosition
+			shift := 0
+			done := false
+			for _, edit := range appliedEdits[path][i] {
+				if edit.column == start {
+					done = true
+				}
+				if edit.column < start {
+					shift += edit.delta
+				}
+			}
+			if done {
+				continue
+			}
+
+			runes := []rune(line)
+			newName := []rune(info.Method)
+			newLine := string(runes[:start+shift]) + info.Method + string(runes[stop+shift:])
 			lines[i] = newLine
+
+			if appliedEdits[path] == nil {
+				appliedEdits[path] = make(map[int][]lineEdit)
+			}
+			appliedEdits[path][i] = append(appliedEdits[path][i], lineEdit{start, len(newName) - (stop - start)})
 		}
 	}
 	output := strings.Join(lines, "\n")
